@@ -1,11 +1,23 @@
-"""C03 — uses the shared scaled_integer harness (C01.h) with its own section."""
+"""C03 — comparisons: scaled_integer (shared scaled harness) and elastic_integer (elastic harness, comparisons only).
+wide_integer comparisons are exercised and proved under C10 (theorem `comparisons`)."""
 import os, sys
 sys.path.insert(0, os.path.dirname(os.path.abspath(__file__)))
 import C01
+import C05
 
 
 def tus(tier, seed):
-    return C01.tus(tier, seed, section='C03')
+    res = C01.tus(tier, seed, section='C03')
+    hdr = os.path.join(os.path.dirname(os.path.abspath(__file__)), 'C05.h')
+    combos = C05.grid(tier, seed + 77)
+    per = 4
+    for i in range(0, len(combos), per):
+        body = '#define VH_CMP_ONLY 1\n#define VH_ETABLE "C03"\n#include "%s"\nint main(){ install(); Rng rng(seed_from_env()+%d);\n' % (hdr, 300 + i)
+        for (dl, nl, dr, nr) in combos[i:i + per]:
+            body += '  bin<%d, %s, %d, %s>(rng);\n' % (dl, C05.CT[nl], dr, C05.CT[nr])
+        body += '}\n'
+        res.append(dict(name='C03_el_%d' % (i // per), src=body, compiler='g++'))
+    return res
 
 
-RULE = C01.RULE
+RULE = C01.RULE + "; elastic pairs: all values for digits <= 6, boundary lattice of both declared ranges otherwise (so -1 versus 2^D-1 is always present)"
